@@ -61,7 +61,7 @@ def make_solver():
             return St(t, u, jnp.asarray(0.0))
 
         def step(self, state, *, dt, damp):
-            t, dt_, x, ns = PROBE("step", state.t, dt, state.x, state.num_steps)
+            t, dt_, x, ns, _dmp = PROBE("step", state.t, dt, state.x, state.num_steps, damp)
             return St(t + dt_, UF("stepx", x, t, dt_), ns + 1.0)
 
         def interpolate_fwd(self, *, t, interp_from, interp_to):
@@ -83,9 +83,13 @@ def make_solver():
 
         def estimate_error_norm(self, state, previous, proposed, *, dt, atol, rtol, damp):
             e = UF("errpow", previous.t, dt)
-            (e, _t, _dt) = PROBE("err", e, previous.t, dt)
+            (e, _t, _dt, _a, _r, _d) = PROBE("err", e, previous.t, dt, atol, rtol, damp)
             return e, state
     return StubSolver(), StubError()
+
+
+# tolerances / damping handed to the drivers: three different values, so that a dropped or swapped argument is visible
+ATOL, RTOL, DAMP = 1e-3, 2e-3, 0.25
 
 
 def make_control(kind, params):
@@ -154,10 +158,10 @@ def symbolic_run(routine, ctrl, clip, nc, ko, ki, seed, T=None, dom=None):
         control = make_control(ctrl, params)
         if routine == "save_at":
             solve = ivpsolve.solve_adaptive_save_at(solver=solver, error=error, control=control, clip_dt=clip)
-            sol = solve(x0, save_at=save_at, atol=1e-3, rtol=1e-3, dt0=dt0, eps=eps)
+            sol = solve(x0, save_at=save_at, atol=ATOL, rtol=RTOL, dt0=dt0, eps=eps, damp=DAMP)
         else:
             solve = ivpsolve.solve_adaptive_terminal_values(solver=solver, error=error, control=control, clip_dt=clip)
-            sol = solve(x0, t0=save_at[0], t1=save_at[1], atol=1e-3, rtol=1e-3, dt0=dt0, eps=eps)
+            sol = solve(x0, t0=save_at[0], t1=save_at[1], atol=ATOL, rtol=RTOL, dt0=dt0, eps=eps, damp=DAMP)
         return sol.t, sol.num_steps, sol.x
     ex = (0.5, jnp.linspace(0.0, 1.0, nc + 1), 0.1, 1e-8, 0.9, 0.2, 10.0)
     closed = jax.make_jaxpr(fn)(*ex)
@@ -448,7 +452,8 @@ def concrete_run(case_id, params, errtable, default_err=2.0):
             return St(jnp.asarray(t), jnp.asarray(u), jnp.asarray(0.0))
 
         def step(self, state, *, dt, damp):
-            log_.append({"tag": "step", "t": float(state.t), "dt": float(dt), "x": float(state.x), "ns": float(state.num_steps)})
+            log_.append({"tag": "step", "t": float(state.t), "dt": float(dt), "x": float(state.x), "ns": float(state.num_steps),
+                         "damp": float(damp)})
             return St(state.t + dt, state.x + 1.0, state.num_steps + 1.0)
 
         def interpolate_fwd(self, *, t, interp_from, interp_to):
@@ -471,6 +476,7 @@ def concrete_run(case_id, params, errtable, default_err=2.0):
         def estimate_error_norm(self, state, previous, proposed, *, dt, atol, rtol, damp):
             e = lookup(float(previous.t), float(dt))
             log_[-1]["err"] = e
+            log_[-1]["tols"] = [float(atol), float(rtol), float(damp)]
             return jnp.asarray(e), state
     base = ivpsolve.control_integral if ctrl == "i" else ivpsolve.control_proportional_integral
 
@@ -484,11 +490,11 @@ def concrete_run(case_id, params, errtable, default_err=2.0):
     with jax.disable_jit():
         if routine == "save_at":
             solve = ivpsolve.solve_adaptive_save_at(solver=Solver(), error=Err(), control=control, clip_dt=clip)
-            sol = solve(jnp.asarray(params["x0"]), save_at=jnp.asarray(params["T"]), atol=1e-3, rtol=1e-3,
+            sol = solve(jnp.asarray(params["x0"]), save_at=jnp.asarray(params["T"]), atol=ATOL, rtol=RTOL, damp=DAMP,
                         dt0=params["dt0"], eps=params["eps"])
         else:
             solve = ivpsolve.solve_adaptive_terminal_values(solver=Solver(), error=Err(), control=control, clip_dt=clip)
-            sol = solve(jnp.asarray(params["x0"]), t0=params["T"][0], t1=params["T"][1], atol=1e-3, rtol=1e-3,
+            sol = solve(jnp.asarray(params["x0"]), t0=params["T"][0], t1=params["T"][1], atol=ATOL, rtol=RTOL, damp=DAMP,
                         dt0=params["dt0"], eps=params["eps"])
     return log_, np.atleast_1d(np.asarray(sol.t)), np.atleast_1d(np.asarray(sol.num_steps))
 
